@@ -413,4 +413,8 @@ theorem val_lt_budget : ∀ e : IExpr, e.powFree = true → e.val < 2 ^ e.budget
     exact Nat.mul_lt_mul'' ha hb
   | .pow _ _, h => by simp [IExpr.powFree] at h
 
+theorem two_pow_le_pow_val (a b : IExpr) (h : 2 ≤ a.val) : 2 ^ b.val ≤ (IExpr.pow a b).val := by
+  show 2 ^ b.val ≤ a.val ^ b.val
+  exact Nat.pow_le_pow_left h _
+
 end Operon.Mito
